@@ -1,3 +1,273 @@
-import GeomV.C08.Model
+import GeomV.C08.Lemmas
+/-!
+# C08 — property theorems (over ℝ, on the generic model instantiated at `ℝ`)
+
+See notes/C08.md for the clause of the property each theorem covers and for what is NOT proved
+(truncated TM series, 7-parameter small-angle inverse, every "within 1e-6° / 1 cm" clause: those are
+statements about rounding/truncation and are numeric evidence from the correspondence run).
+-/
+set_option linter.unusedSimpArgs false
 namespace GeomV.C08
+open Real
+
+/-- **longlat**: `inverse (forward p) = p` for every p (both closures are the identity). -/
+theorem C08_longlat_inv (lon lat : ℝ) :
+    (fwdLongLat lon lat).bind (fun q => invLongLat q.1 q.2) = .ok (lon, lat) := rfl
+
+/-- **spherical Mercator**: `inverse (forward (λ, φ)) = (λ, φ)` on the usable region
+`|φ| ≤ 1.5 rad` (85.9°; the property's region is 85°), `|λ| ≤ sPi`, `|λ − λ₀| ≤ sPi`, for every
+constants record with `a > 0`, `k0 > 0` (any false origin, central meridian, scale). -/
+theorem C08_merc_sphere_inv (c : MercC ℝ) (hs : c.sr.sphere = true) (ha : 0 < c.sr.a) (hk : 0 < c.k0)
+    (lon lat : ℝ) (hlat : |lat| ≤ 1.5) (hlon : |lon| ≤ sPi) (hdl : |lon - c.sr.long0| ≤ sPi) :
+    (fwdMerc c lon lat).bind (fun q => invMerc c q.1 q.2) = .ok (lon, lat) := by
+  obtain ⟨hl1, hl2⟩ := abs_le.mp hlat
+  have hpi : (3.14 : ℝ) < π := pi_gt_d2
+  have h90a : ¬ (90 < lat * r2d) := by
+    simp only [r2d]; norm_num; nlinarith
+  have h90b : ¬ (lat * r2d < -90) := by
+    simp only [r2d]; norm_num; nlinarith
+  have hpole : ¬ (|(|lat| - π / 2)| ≤ (1.0e-10 : ℝ)) := by
+    have : |lat| - π / 2 < -0.07 := by linarith
+    rw [abs_of_neg (by linarith)]; norm_num; linarith
+  have hak : c.sr.a * c.k0 ≠ 0 := (mul_pos ha hk).ne'
+  have hlatinv := merc_lat_inv (phi := lat) (by linarith) (by linarith)
+  have hor : ¬ (90 < lat * r2d ∨ lat * r2d < -90) := not_or.mpr ⟨h90a, h90b⟩
+  simp only [fwdMerc, invMerc, hs, isNaN_real, Bool.false_or, gt_real, lt_real, le_real, abs_real,
+    halfPi_real, fortPi_real, epsln_real, h90a, h90b, hpole, decide_false, Bool.or_false, if_false,
+    Bool.false_eq_true, Except.bind, if_true, adjustLon_id hdl, bind, pure, Except.pure,
+    exp_real, log_real, tan_real, atan_real]
+  norm_num [hor]
+  constructor
+  · rw [show c.sr.long0 + c.sr.a * c.k0 * (lon - c.sr.long0) / (c.sr.a * c.k0) = lon by
+      field_simp; ring]
+    exact adjustLon_id hlon
+  · rw [show -(c.sr.a * c.k0 * log (tan (π / 4 + 1 / 2 * lat))) / (c.sr.a * c.k0)
+        = -(log (tan (π / 4 + 1 / 2 * lat))) by field_simp]
+    have := hlatinv
+    norm_num at this ⊢
+    linarith
+
+
+/-! ## Krovak: decision level -/
+
+/-- **krovak_inv_assigns** (any number class, any constants, any input): the inverse's two outputs
+are exactly the computed `long0 − deltav/alfa` and the iterated latitude; it fails exactly when the
+latitude loop reports `iter >= 15`.  True of the code after fix be1dd3e. -/
+theorem C08_krovak_inv_assigns {α : Type} [RTrans α] (c : KrovakC α) (x y : α) :
+    (∀ lonv latv, invKrovakVals c x y = (lonv, some latv) → invKrovak c x y = .ok (lonv, latv)) ∧
+    (∀ lonv, invKrovakVals c x y = (lonv, none) → invKrovak c x y = .error .krovakIter) := by
+  constructor
+  · intro lonv latv h; simp [invKrovak, h]
+  · intro lonv h; simp [invKrovak, h]
+
+/-- the model of the code BEFORE the fix returns `(0, 0)` whenever it returns at all -/
+theorem C08_krovak_unfixed_returns_zero (c : KrovakC ℝ) (x y : ℝ) (v : ℝ × ℝ)
+    (h : invKrovakUnfixed c x y = .ok v) : v = (0, 0) := by
+  unfold invKrovakUnfixed at h
+  split at h
+  · cases h
+  · simp only [Except.ok.injEq] at h; rw [← h]; norm_num
+
+/-- **negation of krovak_inv_assigns for the unfixed code**: whenever the computed pair is not
+`(0, 0)` (every position of the Krovak region: latitudes 47–51.5°), the unfixed inverse does not
+return it. -/
+theorem C08_krovak_unfixed_not_assigns (c : KrovakC ℝ) (x y lonv latv : ℝ)
+    (hne : (lonv, latv) ≠ (0, 0)) : invKrovakUnfixed c x y ≠ .ok (lonv, latv) :=
+  fun h => hne (C08_krovak_unfixed_returns_zero c x y _ h)
+
+/-! ## Pipeline algebra: every stage of `B→A` undoes the matching stage of `A→B` -/
+
+theorem adjustAxis_involutive (axis : List Char) (x y x' y' : ℝ)
+    (h : adjustAxis axis x y = .ok (x', y')) : adjustAxis axis x' y' = .ok (x, y) := by
+  match axis, h with
+  | [c0, c1, _], h =>
+    simp only [adjustAxis, bind, Except.bind] at h ⊢
+    cases h0 : axisSign c0 with
+    | error e => simp [h0] at h
+    | ok n0 =>
+      cases h1 : axisSign c1 with
+      | error e => simp [h0, h1] at h
+      | ok n1 =>
+        simp only [h0, h1, pure, Except.pure, Except.ok.injEq, Prod.mk.injEq] at h ⊢
+        obtain ⟨hx, hy⟩ := h
+        subst hx; subst hy
+        cases n0 <;> cases n1 <;> simp
+
+/-- **pipeline_inverse_algebra** (stage by stage, over ℝ):
+1. axis: `adjust_axis` is an involution for every legal axis string (it negates, never swaps);
+2. units: `(x / toMeter) * toMeter = x` and `(x * toMeter) / toMeter = x` for `toMeter ≠ 0`;
+3. prime meridian: `(λ − g) + g = λ`, `(λ + g) − g = λ`;
+4. 3-parameter datum shift: `from_wgs84 ∘ to_wgs84 = id` and `to_wgs84 ∘ from_wgs84 = id` on geocentric
+   coordinates;
+5. 7-parameter: the scale and translation parts invert exactly when the rotations are zero
+   (with rotations the inverse is the small-angle approximation: NOT an identity — see notes);
+6. degrees/radians: `deg2rad · r2d` is NOT exactly 1 over ℝ (two 20-digit decimals), but within 1e-19. -/
+theorem C08_pipeline_inverse_algebra :
+    (∀ (axis : List Char) (x y x' y' : ℝ), adjustAxis axis x y = .ok (x', y') → adjustAxis axis x' y' = .ok (x, y)) ∧
+    (∀ (m x : ℝ), m ≠ 0 → x / m * m = x ∧ x * m / m = x) ∧
+    (∀ (g l : ℝ), l - g + g = l ∧ l + g - g = l) ∧
+    (∀ (d : Datum ℝ) (x y z : ℝ), d.dtype = pjd3Param →
+        (let (x1, y1, z1) := geocentricToWgs84 d x y z; geocentricFromWgs84 d x1 y1 z1) = (x, y, z) ∧
+        (let (x1, y1, z1) := geocentricFromWgs84 d x y z; geocentricToWgs84 d x1 y1 z1) = (x, y, z)) ∧
+    (∀ (d : Datum ℝ) (x y z : ℝ), d.dtype = pjd7Param → d.p3 = 0 → d.p4 = 0 → d.p5 = 0 → d.p6 ≠ 0 →
+        (let (x1, y1, z1) := geocentricToWgs84 d x y z; geocentricFromWgs84 d x1 y1 z1) = (x, y, z)) ∧
+    |(deg2rad : ℝ) * r2d - 1| < 1e-19 := by
+  refine ⟨adjustAxis_involutive, ?_, ?_, ?_, ?_, ?_⟩
+  · intro m x hm; constructor <;> field_simp
+  · intro g l; constructor <;> ring
+  · intro d x y z hd
+    simp only [geocentricToWgs84, geocentricFromWgs84, hd, if_true]
+    constructor <;> · ext <;> simp
+  · intro d x y z hd h3 h4 h5 h6
+    have h12 : pjd7Param ≠ pjd3Param := by decide
+    simp only [geocentricToWgs84, geocentricFromWgs84, hd, h12, if_false, if_true, h3, h4, h5]
+    ext <;> simp <;> field_simp
+  · simp only [deg2rad, r2d]; rw [abs_lt]; constructor <;> norm_num
+
+
+/-! ## Fixed-point theorems for the iterative ellipsoidal inverses -/
+
+theorem lit_one : (1.0 : ℝ) = 1 := by norm_num
+theorem lit_two : (2.0 : ℝ) = 2 := by norm_num
+
+/-- positivity of the `((1 - e sinφ)/(1 + e sinφ))^(e/2)` factor -/
+theorem conPow_pos (con p : ℝ) (h : |con| < 1) : 0 < ((1 - con) / (1 + con)) ^ p := by
+  obtain ⟨h1, h2⟩ := abs_lt.mp h
+  exact rpow_pos_of_pos (div_pos (by linarith) (by linarith)) _
+
+/-- **phi2z_fixed**: the true latitude `φ` (|φ| < π/2) is a fixed point of the `phi2z` update at
+`ts = tsfnz e φ (sin φ)`, for every eccentricity with `|e sin φ| < 1`. -/
+theorem C08_phi2z_fixed (e phi : ℝ) (hphi : |phi| < π / 2) (he : |e * sin phi| < 1) :
+    phi2zStep e (tsfnz e phi (sin phi)) phi = 0 := by
+  obtain ⟨h1, h2⟩ := abs_lt.mp hphi
+  have hP := conPow_pos (e * sin phi) (0.5 * e) he
+  simp only [phi2zStep, tsfnz, halfPi_real, sin_real, tan_real, atan_real, pow_real, lit_one, lit_two]
+  rw [div_mul_cancel₀ _ hP.ne', arctan_tan (by linarith [pi_pos]) (by linarith [pi_pos])]
+  ring
+
+/-- at the truth the loop stops at once and returns the truth -/
+theorem C08_phi2z_returns_fixed (e phi : ℝ) (n : ℕ) (hphi : |phi| < π / 2) (he : |e * sin phi| < 1) :
+    phi2zLoop e (tsfnz e phi (sin phi)) (n + 1) phi = .ok phi := by
+  have h0 : (0 : ℝ) ≤ 0.0000000001 := by norm_num
+  simp [phi2zLoop, C08_phi2z_fixed e phi hphi he, h0]
+
+/-- a stationary point `φ'` of the update reproduces `ts`: `tsfnz e φ' (sin φ') = ts` -/
+theorem tsfnz_of_stationary (e ts phi' : ℝ) (he : |e * sin phi'| < 1)
+    (h : phi2zStep e ts phi' = 0) : tsfnz e phi' (sin phi') = ts := by
+  have hP := conPow_pos (e * sin phi') (0.5 * e) he
+  simp only [phi2zStep, tsfnz, halfPi_real, sin_real, tan_real, atan_real, pow_real, lit_one, lit_two] at h ⊢
+  have : 0.5 * (π / 2 - phi') = arctan (ts * ((1 - e * sin phi') / (1 + e * sin phi')) ^ (0.5 * e)) := by
+    linarith
+  rw [this, tan_arctan, mul_div_assoc, div_self hP.ne', mul_one]
+
+/-- the ellipsoidal Mercator forward inside the usable region, in closed form -/
+theorem fwdMerc_ell (c : MercC ℝ) (hs : c.sr.sphere = false) (lon lat : ℝ) (hlat : |lat| ≤ 1.5) :
+    fwdMerc c lon lat = .ok (c.sr.x0 + c.sr.a * c.k0 * adjustLon (lon - c.sr.long0),
+      c.sr.y0 - c.sr.a * c.k0 * log (tsfnz c.sr.e lat (sin lat))) := by
+  have hpi : (3.14 : ℝ) < π := pi_gt_d2
+  obtain ⟨hl1, hl2⟩ := abs_le.mp hlat
+  have h90a : ¬ (90 < lat * r2d) := by simp only [r2d]; norm_num; nlinarith
+  have h90b : ¬ (lat * r2d < -90) := by simp only [r2d]; norm_num; nlinarith
+  have hor : ¬ (90 < lat * r2d ∨ lat * r2d < -90) := not_or.mpr ⟨h90a, h90b⟩
+  have hpole : ¬ (|(|lat| - π / 2)| ≤ (1.0e-10 : ℝ)) := by
+    have : |lat| - π / 2 < -0.07 := by linarith
+    rw [abs_of_neg (by linarith)]; norm_num; linarith
+  simp only [fwdMerc, hs, isNaN_real, Bool.false_or, gt_real, lt_real, le_real, abs_real,
+    halfPi_real, epsln_real, h90a, h90b, hpole, decide_false, Bool.or_false, if_false,
+    Bool.false_eq_true, sin_real, log_real]
+  norm_num [hor]
+
+/-- **merc_ell_inv_of_converged** (conditional on convergence on purpose): on the ellipsoid, if the
+inverse's `phi2z` stops at a latitude `φ'` where its update is exactly zero, then projecting
+`(λ', φ')` again reproduces the projected coordinates EXACTLY (project ∘ unproject ∘ project =
+project) and `λ' = λ`, for `|λ|, |λ − λ₀| ≤ sPi`, `|φ|, |φ'| ≤ 1.5`. -/
+theorem C08_merc_ell_inv_of_converged (c : MercC ℝ) (hs : c.sr.sphere = false) (ha : 0 < c.sr.a)
+    (hk : 0 < c.k0) (lon lat x y lon' lat' : ℝ)
+    (hlat : |lat| ≤ 1.5) (hlat' : |lat'| ≤ 1.5) (hlon : |lon| ≤ sPi) (hdl : |lon - c.sr.long0| ≤ sPi)
+    (he : |c.sr.e * sin lat| < 1) (he' : |c.sr.e * sin lat'| < 1)
+    (hf : fwdMerc c lon lat = .ok (x, y)) (hi : invMerc c x y = .ok (lon', lat'))
+    (hstat : phi2zStep c.sr.e (exp (-(y - c.sr.y0) / (c.sr.a * c.k0))) lat' = 0) :
+    lon' = lon ∧ fwdMerc c lon' lat' = .ok (x, y) := by
+  have hak : c.sr.a * c.k0 ≠ 0 := (mul_pos ha hk).ne'
+  rw [fwdMerc_ell c hs lon lat hlat, adjustLon_id hdl] at hf
+  simp only [Except.ok.injEq, Prod.mk.injEq] at hf
+  obtain ⟨hx, hy⟩ := hf
+  have hts0 : 0 < tsfnz c.sr.e lat (sin lat) := by
+    obtain ⟨hl1, hl2⟩ := abs_le.mp hlat
+    have hpi : (3.14 : ℝ) < π := pi_gt_d2
+    have hP := conPow_pos (c.sr.e * sin lat) (0.5 * c.sr.e) he
+    simp only [tsfnz, halfPi_real, tan_real, pow_real, lit_one]
+    exact div_pos (tan_pos_of_pos_of_lt_pi_div_two (by linarith) (by linarith)) hP
+  have hexp : exp (-(y - c.sr.y0) / (c.sr.a * c.k0)) = tsfnz c.sr.e lat (sin lat) := by
+    rw [← hy, show -(c.sr.y0 - c.sr.a * c.k0 * log (tsfnz c.sr.e lat (sin lat)) - c.sr.y0) / (c.sr.a * c.k0)
+      = log (tsfnz c.sr.e lat (sin lat)) by field_simp; ring, exp_log hts0]
+  have hts' := tsfnz_of_stationary c.sr.e _ lat' he' hstat
+  simp only [invMerc, hs, Bool.false_eq_true, if_false, bind, Except.bind, exp_real] at hi
+  split at hi
+  · cases hi
+  · simp only [pure, Except.pure, Except.ok.injEq, Prod.mk.injEq] at hi
+    obtain ⟨hlon', _⟩ := hi
+    have hl' : lon' = lon := by
+      rw [← hlon', ← hx, show c.sr.long0 + (c.sr.x0 + c.sr.a * c.k0 * (lon - c.sr.long0) - c.sr.x0) / (c.sr.a * c.k0)
+        = lon by field_simp; ring]
+      exact adjustLon_id hlon
+    refine ⟨hl', ?_⟩
+    subst hl'
+    rw [fwdMerc_ell c hs _ lat' hlat', adjustLon_id hdl, hts', hexp, hx, hy]
+
+
+/-- **imlfn_fixed**: the true latitude is a fixed point of the Newton update of `imlfn` at
+`ml = mlfn e0 e1 e2 e3 φ` (for all series coefficients, all φ). -/
+theorem C08_imlfn_fixed (e0 e1 e2 e3 phi : ℝ) :
+    imlfnStep (mlfn e0 e1 e2 e3 phi) e0 e1 e2 e3 phi = 0 := by
+  simp [imlfnStep, mlfn]
+
+/-- conversely a stationary point of the update with a non-singular derivative has meridian
+distance exactly `ml` — so re-projecting it reproduces the radius `rh1` of the conic -/
+theorem C08_imlfn_stationary (ml e0 e1 e2 e3 phi' : ℝ)
+    (hd : e0 - 2.0 * e1 * cos (2.0 * phi') + 4.0 * e2 * cos (4.0 * phi') - 6.0 * e3 * cos (6.0 * phi') ≠ 0)
+    (h : imlfnStep ml e0 e1 e2 e3 phi' = 0) : mlfn e0 e1 e2 e3 phi' = ml := by
+  simp only [imlfnStep, mlfn, sin_real, cos_real] at h ⊢
+  rcases div_eq_zero_iff.mp h with h | h
+  · linarith
+  · exact absurd h hd
+
+/-- **eqdc_inv_of_converged**: forward of a stationary point of `imlfn` reproduces the cone radius
+(`rh1 = a (g − ml)`), hence x and y, exactly. -/
+theorem C08_eqdc_inv_of_converged (c : EqdcC ℝ) (hs : c.sr.sphere = false) (lon ml phi' : ℝ)
+    (hd : c.e0 - 2.0 * c.e1 * cos (2.0 * phi') + 4.0 * c.e2 * cos (4.0 * phi') - 6.0 * c.e3 * cos (6.0 * phi') ≠ 0)
+    (h : imlfnStep ml c.e0 c.e1 c.e2 c.e3 phi' = 0) :
+    fwdEqdc c lon phi' = .ok (c.sr.x0 + c.sr.a * (c.g - ml) * sin (c.ns * adjustLon (lon - c.sr.long0)),
+      c.sr.y0 + c.rh - c.sr.a * (c.g - ml) * cos (c.ns * adjustLon (lon - c.sr.long0))) := by
+  simp [fwdEqdc, hs, C08_imlfn_stationary ml c.e0 c.e1 c.e2 c.e3 phi' hd h]
+
+/-- the footpoint-latitude iteration of the ellipsoidal TM inverse is stationary exactly at the
+latitude whose meridian distance is `con·e0`… : `tmercPhiStep c con φ = 0 ↔ mlfn φ = con` (e0 ≠ 0) -/
+theorem C08_tmerc_footpoint_fixed (c : TmercC ℝ) (h0 : c.e0 ≠ 0) (con phi : ℝ) :
+    tmercPhiStep c con phi = 0 ↔ mlfn c.e0 c.e1 c.e2 c.e3 phi = con := by
+  simp only [tmercPhiStep, mlfn, sin_real]
+  constructor
+  · intro h
+    have : (con + c.e1 * sin (2.0 * phi) - c.e2 * sin (4.0 * phi) + c.e3 * sin (6.0 * phi)) / c.e0 = phi := by linarith
+    rw [div_eq_iff h0] at this
+    linarith
+  · intro h
+    have : (con + c.e1 * sin (2.0 * phi) - c.e2 * sin (4.0 * phi) + c.e3 * sin (6.0 * phi)) = phi * c.e0 := by linarith
+    rw [this, mul_div_assoc, div_self h0]; ring
+
+/-- **aeaPhi1z_fixed**: the true latitude is a fixed point of the `aeaPhi1z` update at
+`qs = qsfnz e (sin φ)`, for `1e-7 < e < 1`. -/
+theorem C08_aeaPhi1z_fixed (e phi : ℝ) (he : 1.0e-7 < e) (he1 : e < 1) :
+    aeaPhi1zStep e (qsfnz e (sin phi)) phi = 0 := by
+  have hpos : (0 : ℝ) < e := lt_trans (by norm_num) he
+  have hne : (1 : ℝ) - e * e ≠ 0 := by nlinarith
+  have he0 : e ≠ 0 := by
+    have h7 : (0 : ℝ) < 1.0e-7 := by norm_num
+    exact (lt_trans h7 he).ne'
+  simp only [aeaPhi1zStep, qsfnz, gt_real, he, decide_true, if_true, sin_real, cos_real, log_real, lit_one]
+  have : (1 - e * e) * (sin phi / (1 - e * sin phi * (e * sin phi)) - 0.5 / e * log ((1 - e * sin phi) / (1 + e * sin phi))) / (1 - e * e)
+      = sin phi / (1 - e * sin phi * (e * sin phi)) - 0.5 / e * log ((1 - e * sin phi) / (1 + e * sin phi)) :=
+    mul_div_cancel_left₀ _ hne
+  rw [this]; ring
+
 end GeomV.C08
